@@ -34,6 +34,29 @@ def label_eq(x, y):
     return all(param_eq(n, i, a, b) for i, (a, b) in enumerate(zip(x[1], y[1])))
 
 
+def relax_scn_cases(m, rops):
+    """DESIGN.md 6: operator cases under a `scn(..)[0]` switch may be CaseValue or CaseScenario (the language has one spelling,
+    `case > 0:`, and the compiler deliberately emits CaseScenario). The case ops that directly follow a SwitchScenario op
+    get the label 'CaseValue|CaseScenario' on the input side of the comparison with the recompiled routines."""
+    out = None
+    for r, ops in enumerate(rops):
+        in_scn = False
+        for i, op in enumerate(ops):
+            name = op.op_code.name
+            if name == "SwitchScenario":
+                in_scn = True
+            elif in_scn and name in lts.CASE_OPS:
+                if name in ("CaseValue", "CaseScenario"):
+                    node = m[("m", r, i)]
+                    if node[0] == "test":
+                        if out is None:
+                            out = dict(m)
+                        out[("m", r, i)] = ("test", ("CaseValue|CaseScenario", node[1][1]), node[2], node[3])
+            else:
+                in_scn = False
+    return out if out is not None else m
+
+
 def describe(rops):
     return [[f"{op.offset}: {op.op_code.name} {[lts.canon_param(p) for p in op.params]!r}" for op in r] for r in rops]
 
@@ -189,8 +212,9 @@ def analyse(rops, infos, coros, want_c09=True):
     if len(e_in) != len(e_out):
         an.c02.append({"kind": "routine-count", "detail": {"input": before, "text": text}})
         return an
+    m_in_scn = relax_scn_cases(m_in, rops)
     for r, (a, b) in enumerate(zip(e_in, e_out)):
-        ok, st, tr, rel, mm = lts.product(m_in, a, m_out, b, label_eq=label_eq)
+        ok, st, tr, rel, mm = lts.product(m_in_scn, a, m_out, b, label_eq=label_eq)
         an.states += st
         an.transitions += tr
         an.relation |= rel
